@@ -69,29 +69,32 @@ Section Cli.
     end.
   Proof. reflexivity. Qed.
 
-  Lemma isinvalid_correct : forall fuel p n s c, d = p ++ n :: s -> length p < fuel -> cache_ok c ->
+  Variable rank : tid -> nat.
+  Hypothesis Rdep : forall n x, In n d -> In x (n_deps n) -> rank x < rank (n_tid n).
+
+  Lemma isinvalid_correct : forall fuel n c, In n d -> rank (n_tid n) < fuel -> cache_ok c ->
     cache_ok (snd (isinvalid fuel d m c n)) /\
     (fst (isinvalid fuel d m c n) = true <-> invalid_spec (n_tid n)).
   Proof.
-    induction fuel as [|f IH]; intros p n s c E L C; [lia|].
-    assert (Hn : In n d) by (rewrite E; apply in_or_app; right; left; reflexivity).
+    induction fuel as [|f IH]; intros n c Hn L C; [lia|].
     rewrite isinvalid_S. destruct (cache_get c (n_tid n)) as [b|] eqn:G.
     - simpl. split; [exact C | apply C; exact G].
     - destruct (m (n_name n)) eqn:M.
       + simpl. assert (S1 : invalid_spec (n_tid n)) by (apply spec_unfold; auto).
         split; [apply cache_ok_cons; auto; tauto | tauto].
-      + assert (A : forall ds c0, (forall x, In x ds -> In x (tids p)) -> cache_ok c0 ->
+      + assert (A : forall ds c0, (forall x, In x ds -> In x (n_deps n)) -> cache_ok c0 ->
                   cache_ok (snd (any_dep (rec_of f) ds c0)) /\
                   (fst (any_dep (rec_of f) ds c0) = true <-> exists x, In x ds /\ invalid_spec x)).
         { induction ds as [|x r IHds]; intros c0 Hds C0; simpl.
           - split; [exact C0|]. split; [discriminate | intros [x [[] _]]].
-          - destruct (find_in_prefix p x (Hds x (or_introl eq_refl))) as [nx [px [sx [P [T F]]]]].
+          - assert (Hx : In x (n_deps n)) by (apply Hds; left; reflexivity).
+            destruct (find_node_in d x (wf_deps_in d n x W Hn Hx)) as [nx F].
+            destruct (find_node_some d x nx F) as [Hnx T].
             assert (R : rec_of f c0 x = isinvalid f d m c0 nx).
-            { unfold rec_of. rewrite E. rewrite F. reflexivity. }
+            { unfold rec_of. rewrite F. reflexivity. }
             rewrite R.
-            destruct (IH px nx (sx ++ n :: s) c0) as [C1 B1].
-            { rewrite E, P. rewrite <- app_assoc. reflexivity. }
-            { rewrite P in L. rewrite app_length in L. simpl in L. lia. }
+            destruct (IH nx c0 Hnx) as [C1 B1].
+            { rewrite T. pose proof (Rdep n x Hn Hx). lia. }
             { exact C0. }
             rewrite T in B1.
             destruct (isinvalid f d m c0 nx) as [b c1] eqn:I. simpl in C1, B1.
@@ -103,28 +106,29 @@ Section Cli.
               * intros [y [[Hy|Hy] Sy]].
                 -- subst y. apply B1 in Sy. discriminate.
                 -- exists y. auto. }
-        destruct (A (n_deps n) c) as [C1 B1].
-        { intros x Hx. destruct (W p n s E) as [D _]. apply D. exact Hx. }
-        { exact C. }
+        destruct (A (n_deps n) c) as [C1 B1]; [intros x Hx; exact Hx | exact C |].
         destruct (any_dep (rec_of f) (n_deps n) c) as [b c1] eqn:I. simpl in C1, B1. simpl.
         assert (S1 : b = true <-> invalid_spec (n_tid n)).
         { rewrite (spec_unfold n Hn). rewrite B1. rewrite M. intuition discriminate. }
         split; [apply cache_ok_cons; assumption | exact S1].
   Qed.
 
-  Lemma cli_filter_correct : forall ns p c, d = p ++ ns -> cache_ok c ->
+  Hypothesis Rlt : forall n, In n d -> rank (n_tid n) < length d.
+
+  Lemma cli_filter_correct : forall ns c, (forall n, In n ns -> In n d) -> cache_ok c ->
     forall n, In n (cli_filter (S (length d)) d m c ns) <-> In n ns /\ invalid_spec (n_tid n).
   Proof.
-    induction ns as [|a r IH]; intros p c E C n; [simpl; tauto|].
+    induction ns as [|a r IH]; intros c Sub C n; [simpl; tauto|].
     change (cli_filter (S (length d)) d m c (a :: r)) with
       (let '(b, c') := isinvalid (S (length d)) d m c a in
        if b then a :: cli_filter (S (length d)) d m c' r else cli_filter (S (length d)) d m c' r).
-    destruct (isinvalid_correct (S (length d)) p a r c E) as [C1 B1].
-    { rewrite E. rewrite app_length. simpl. lia. }
+    destruct (isinvalid_correct (S (length d)) a c) as [C1 B1].
+    { apply Sub. left. reflexivity. }
+    { pose proof (Rlt a (Sub a (or_introl eq_refl))). lia. }
     { exact C. }
     destruct (isinvalid (S (length d)) d m c a) as [b c1] eqn:I. simpl in C1, B1.
-    assert (E2 : d = (p ++ [a]) ++ r) by (rewrite <- app_assoc; exact E).
-    specialize (IH (p ++ [a]) c1 E2 C1 n).
+    assert (Sub2 : forall x, In x r -> In x d) by (intros x Hx; apply Sub; right; exact Hx).
+    specialize (IH c1 Sub2 C1 n).
     destruct b; simpl; rewrite IH.
     - split.
       + intros [H|[H S1]]; [subst n; split; [left; reflexivity | tauto] | tauto].
@@ -137,17 +141,17 @@ Section Cli.
   Lemma cache_ok_nil : cache_ok [].
   Proof. intros t b G. discriminate. Qed.
 
-  Lemma cli_nodes_spec : forall n, In n (cli_invalid_nodes d m) <-> In n d /\ invalid_spec (n_tid n).
-  Proof. intros n. unfold cli_invalid_nodes. apply (cli_filter_correct d [] []); [reflexivity | apply cache_ok_nil]. Qed.
+  Lemma cli_nodes_spec_r : forall n, In n (cli_invalid_nodes d m) <-> In n d /\ invalid_spec (n_tid n).
+  Proof. intros n. unfold cli_invalid_nodes. apply cli_filter_correct; [auto | apply cache_ok_nil]. Qed.
 
   (* (a) the command-line algorithm returns exactly the tasks that are, or depend on, a match *)
-  Lemma cli_invalid_spec : forall t, In t (cli_invalid d m) <-> In t (tids d) /\ invalid_spec t.
+  Lemma cli_invalid_spec_r : forall t, In t (cli_invalid d m) <-> In t (tids d) /\ invalid_spec t.
   Proof.
     intros t. unfold cli_invalid. rewrite in_map_iff. split.
-    - intros [n [T H]]. apply cli_nodes_spec in H. destruct H as [H S1]. subst t. split; [|exact S1].
+    - intros [n [T H]]. apply cli_nodes_spec_r in H. destruct H as [H S1]. subst t. split; [|exact S1].
       apply In_tids. exists n. auto.
     - intros [H S1]. apply In_tids in H. destruct H as [n [Hn T]]. exists n. split; [exact T|].
-      apply cli_nodes_spec. subst t. auto.
+      apply cli_nodes_spec_r. subst t. auto.
   Qed.
 
   (* a task that matches, or depends on a match, is one of the jugfile's tasks unless it is only
@@ -158,33 +162,33 @@ Section Cli.
     subst t. apply In_tids. exists n. auto.
   Qed.
 
-  Lemma cli_invalid_spec' : forall t, In t (cli_invalid d m) <-> invalid_spec t.
+  Lemma cli_invalid_spec_r' : forall t, In t (cli_invalid d m) <-> invalid_spec t.
   Proof.
-    intros t. rewrite cli_invalid_spec. split; [tauto|]. intros H. split; [apply invalid_spec_in|]; exact H.
+    intros t. rewrite cli_invalid_spec_r. split; [tauto|]. intros H. split; [apply invalid_spec_in|]; exact H.
   Qed.
 
   (* (c) the store: exactly those results go, every other key is untouched *)
-  Lemma cli_store_spec : forall st t,
+  Lemma cli_store_spec_r : forall st t,
     (invalid_spec t -> cli_store d m st t = false) /\
     (~ invalid_spec t -> cli_store d m st t = st t).
   Proof.
     intros st t. unfold cli_store, remove_keys. split; intros H.
-    - apply cli_invalid_spec' in H. apply mem_In in H. rewrite H. apply andb_false_r.
+    - apply cli_invalid_spec_r' in H. apply mem_In in H. rewrite H. apply andb_false_r.
     - assert (mem t (cli_invalid d m) = false) as F.
-      { apply mem_false. intros I. apply H. apply cli_invalid_spec'. exact I. }
+      { apply mem_false. intros I. apply H. apply cli_invalid_spec_r'. exact I. }
       rewrite F. apply andb_true_r.
   Qed.
 
-  Lemma cli_removed_spec : forall st t,
+  Lemma cli_removed_spec_r : forall st t,
     In t (cli_removed d m st) <-> invalid_spec t /\ st t = true.
-  Proof. intros st t. unfold cli_removed. rewrite filter_In, cli_invalid_spec'. tauto. Qed.
+  Proof. intros st t. unfold cli_removed. rewrite filter_In, cli_invalid_spec_r'. tauto. Qed.
 
   (* (d) invalidation keeps the stored results dependency-closed *)
-  Lemma cli_store_closed : forall st, closed d st -> closed d (cli_store d m st).
+  Lemma cli_store_closed_r : forall st, closed d st -> closed d (cli_store d m st).
   Proof.
     intros st Cl n Hn S1 x Hx.
-    destruct (cli_store_spec st (n_tid n)) as [A1 A2].
-    destruct (cli_store_spec st x) as [B1 B2].
+    destruct (cli_store_spec_r st (n_tid n)) as [A1 A2].
+    destruct (cli_store_spec_r st x) as [B1 B2].
     assert (NI : ~ invalid_spec (n_tid n)).
     { intros I. rewrite (A1 I) in S1. discriminate. }
     assert (NX : ~ invalid_spec x).
@@ -192,6 +196,31 @@ Section Cli.
     rewrite (B2 NX). rewrite (A2 NI) in S1. eapply Cl; eauto.
   Qed.
 End Cli.
+
+(* the same facts with the numbering taken from [wf_dag] *)
+Lemma cli_nodes_spec : forall d m, wf_dag d ->
+  forall n, In n (cli_invalid_nodes d m) <-> In n d /\ invalid_spec d m (n_tid n).
+Proof. intros d m W0. pose proof W0 as W. destruct W0 as [_ [_ [rank [Rlt Rdep]]]]. exact (cli_nodes_spec_r d m W rank Rdep Rlt). Qed.
+
+Lemma cli_invalid_spec : forall d m, wf_dag d ->
+  forall t, In t (cli_invalid d m) <-> In t (tids d) /\ invalid_spec d m t.
+Proof. intros d m W0. pose proof W0 as W. destruct W0 as [_ [_ [rank [Rlt Rdep]]]]. exact (cli_invalid_spec_r d m W rank Rdep Rlt). Qed.
+
+Lemma cli_invalid_spec' : forall d m, wf_dag d -> forall t, In t (cli_invalid d m) <-> invalid_spec d m t.
+Proof. intros d m W0. pose proof W0 as W. destruct W0 as [_ [_ [rank [Rlt Rdep]]]]. exact (cli_invalid_spec_r' d m W rank Rdep Rlt). Qed.
+
+Lemma cli_store_spec : forall d m, wf_dag d -> forall st t,
+  (invalid_spec d m t -> cli_store d m st t = false) /\
+  (~ invalid_spec d m t -> cli_store d m st t = st t).
+Proof. intros d m W0. pose proof W0 as W. destruct W0 as [_ [_ [rank [Rlt Rdep]]]]. exact (cli_store_spec_r d m W rank Rdep Rlt). Qed.
+
+Lemma cli_removed_spec : forall d m, wf_dag d -> forall st t,
+  In t (cli_removed d m st) <-> invalid_spec d m t /\ st t = true.
+Proof. intros d m W0. pose proof W0 as W. destruct W0 as [_ [_ [rank [Rlt Rdep]]]]. exact (cli_removed_spec_r d m W rank Rdep Rlt). Qed.
+
+Lemma cli_store_closed : forall d m, wf_dag d -> forall st, closed d st -> closed d (cli_store d m st).
+Proof. intros d m W0. pose proof W0 as W. destruct W0 as [_ [_ [rank [Rlt Rdep]]]]. exact (cli_store_closed_r d m W rank Rdep Rlt). Qed.
+
 
 (* ================================================================================================ *)
 (* the shell's work-list                                                                            *)
@@ -322,6 +351,9 @@ Section Shell.
   Qed.
 End Shell.
 
+Lemma depends_on_b_spec : forall d a c, depends_on_b d a c = true <-> depends_on d a c.
+Proof. intros d a c. unfold depends_on_b. rewrite mem_In. apply shell_invalid_spec. Qed.
+
 Lemma shell_session_spec : forall d seeds t,
   In t (shell_session d seeds) <-> exists s, In s seeds /\ depends_on d t s.
 Proof.
@@ -374,73 +406,93 @@ Qed.
 
 (* ================================================================================================ *)
 (* the following execute                                                                            *)
-Lemma exec_from_spec : forall r p st log, wf_dag (p ++ r) ->
-  (forall t, In t (tids p) -> st t = true) ->
-  (forall t, fst (exec_from r st log) t = true <-> st t = true \/ In t (tids r)) /\
-  (forall t, In t (snd (exec_from r st log)) <-> In t log \/ (In t (tids r) /\ st t = false)) /\
-  (NoDup log -> (forall t, In t log -> st t = true) -> NoDup (snd (exec_from r st log))).
+(* what has been run so far, relative to the store [st0] the execute started from *)
+Definition exec_inv (d : dag) (st0 st : store) (log : list tid) : Prop :=
+  (forall t, st t = true <-> st0 t = true \/ In t log) /\
+  (forall t, In t log -> In t (tids d) /\ st0 t = false) /\
+  NoDup log.
+
+Lemma exec_pass_inv : forall d st0 ns st log, (forall n, In n ns -> In n d) -> exec_inv d st0 st log ->
+  exec_inv d st0 (fst (exec_pass ns st log)) (snd (exec_pass ns st log)).
 Proof.
-  induction r as [|n r IH]; intros p st log W P.
-  - simpl. repeat split.
-    + tauto.
-    + intros [H|[]]. exact H.
-    + intros H. left. apply in_rev. exact H.
-    + intros [H|[[] _]]. apply in_rev. rewrite rev_involutive. exact H.
-    + intros H _. apply NoDup_rev. exact H.
-  - assert (W2 : wf_dag ((p ++ [n]) ++ r)) by (rewrite <- app_assoc; exact W).
-    simpl. destruct (st (n_tid n)) eqn:S1.
-    + destruct (IH (p ++ [n]) st log W2) as [A [B C]].
-      { intros t Ht. rewrite tids_app in Ht. apply in_app_or in Ht. destruct Ht as [Ht|[Ht|[]]]; [auto|].
-        simpl in Ht. subst t. exact S1. }
-      repeat split.
-      * intros H. apply A in H. destruct H; [left; assumption | right; right; assumption].
-      * intros [H|[H|H]]; apply A; [left; exact H | left; subst t; exact S1 | right; exact H].
-      * intros H. apply B in H. destruct H as [H|[H1 H2]]; [left; exact H | right; split; [right; exact H1 | exact H2]].
-      * intros [H|[[H1|H1] H2]]; apply B; [left; exact H | subst t; congruence | right; auto].
-      * exact C.
-    + assert (F : forallb st (n_deps n) = true).
-      { apply forallb_forall. intros x Hx. apply P. destruct (W p n r eq_refl) as [D _]. apply D. exact Hx. }
-      rewrite F.
-      destruct (IH (p ++ [n]) (st_add st (n_tid n)) (n_tid n :: log) W2) as [A [B C]].
-      { intros t Ht. unfold st_add. rewrite tids_app in Ht. apply in_app_or in Ht. destruct Ht as [Ht|[Ht|[]]].
-        - rewrite (P t Ht). apply orb_true_r.
-        - simpl in Ht. subst t. rewrite Pos.eqb_refl. reflexivity. }
-      repeat split.
-      * intros H. apply A in H. unfold st_add in H. destruct H as [H|H]; [|right; right; exact H].
-        apply orb_true_iff in H. destruct H as [H|H]; [apply Pos.eqb_eq in H; right; left; auto | left; exact H].
-      * intros H. apply A. unfold st_add. destruct H as [H|[H|H]].
-        -- left. rewrite H. apply orb_true_r.
-        -- left. subst t. rewrite Pos.eqb_refl. reflexivity.
-        -- right. exact H.
-      * intros H. apply B in H. destruct H as [[H|H]|[H1 H2]].
-        -- right. subst t. split; [left; reflexivity | exact S1].
-        -- left. exact H.
-        -- unfold st_add in H2. apply orb_false_iff in H2. destruct H2 as [_ H2]. right. split; [right; exact H1 | exact H2].
-      * intros H. apply B. destruct H as [H|[[H1|H1] H2]].
-        -- left. right. exact H.
-        -- left. left. exact H1.
-        -- destruct (Pos.eqb t (n_tid n)) eqn:E.
-           ++ apply Pos.eqb_eq in E. left. left. auto.
-           ++ right. split; [exact H1|]. unfold st_add. rewrite E. exact H2.
-      * intros ND L. apply C.
-        -- constructor; [|exact ND]. intros I. apply L in I. congruence.
-        -- intros t [H|H]; unfold st_add.
-           ++ subst t. rewrite Pos.eqb_refl. reflexivity.
-           ++ rewrite (L t H). apply orb_true_r.
+  intros d st0. induction ns as [|n r IH]; intros st log Sub I; simpl; [exact I|].
+  assert (Sub2 : forall x, In x r -> In x d) by (intros x Hx; apply Sub; right; exact Hx).
+  destruct (st (n_tid n)) eqn:S1; [apply IH; assumption|].
+  destruct (forallb st (n_deps n)); [|apply IH; assumption].
+  apply IH; [assumption|]. destruct I as [A [B C]]. split; [|split].
+  - intros t. unfold st_add. rewrite orb_true_iff, Pos.eqb_eq, A. simpl. intuition.
+  - intros t [H|H].
+    + subst t. split; [apply In_tids; exists n; split; [apply Sub; left; reflexivity | reflexivity]|].
+      destruct (st0 (n_tid n)) eqn:E; [|reflexivity].
+      assert (st (n_tid n) = true) by (apply A; left; exact E). congruence.
+    + apply B. exact H.
+  - constructor; [|exact C]. intros H.
+    assert (st (n_tid n) = true) by (apply A; right; exact H). congruence.
 Qed.
 
-(* one sequential execute runs exactly the tasks without a stored result, each once, and afterwards
-   every task has one *)
+Lemma exec_pass_mono : forall ns st log t, st t = true -> fst (exec_pass ns st log) t = true.
+Proof.
+  induction ns as [|a r IH]; simpl; intros st log t H; [exact H|].
+  destruct (st (n_tid a)); [apply IH; exact H|].
+  destruct (forallb st (n_deps a)); [|apply IH; exact H].
+  apply IH. unfold st_add. rewrite H. apply orb_true_r.
+Qed.
+
+(* a task whose dependencies are stored when a pass begins has a result when it ends *)
+Lemma exec_pass_progress : forall ns st log n, In n ns -> forallb st (n_deps n) = true ->
+  fst (exec_pass ns st log) (n_tid n) = true.
+Proof.
+  induction ns as [|a r IH]; intros st log n H F; [contradiction|]. simpl. destruct H as [H|H].
+  - subst a. destruct (st (n_tid n)) eqn:S1; [apply exec_pass_mono; exact S1|].
+    rewrite F. apply exec_pass_mono. unfold st_add. rewrite Pos.eqb_refl. reflexivity.
+  - destruct (st (n_tid a)) eqn:S1; [apply IH; auto|].
+    destruct (forallb st (n_deps a)) eqn:Fa; [|apply IH; auto].
+    apply IH; [exact H|]. apply forallb_forall. intros x Hx. unfold st_add.
+    rewrite (proj1 (forallb_forall _ _) F x Hx). apply orb_true_r.
+Qed.
+
+Lemma exec_rounds_spec : forall d st0 (rank : tid -> nat),
+  (forall n x, In n d -> In x (n_deps n) -> In x (tids d)) ->
+  (forall n x, In n d -> In x (n_deps n) -> rank x < rank (n_tid n)) ->
+  forall k st log j, exec_inv d st0 st log ->
+    (forall n, In n d -> rank (n_tid n) < j -> st (n_tid n) = true) ->
+    exec_inv d st0 (fst (exec_rounds k d st log)) (snd (exec_rounds k d st log)) /\
+    (forall n, In n d -> rank (n_tid n) < j + k -> fst (exec_rounds k d st log) (n_tid n) = true).
+Proof.
+  intros d st0 rank Din Rdep. induction k as [|k IH]; intros st log j I L.
+  - simpl. split; [exact I|]. intros n Hn R. apply L; [exact Hn | lia].
+  - simpl. destruct (IH (fst (exec_pass d st log)) (snd (exec_pass d st log)) (S j)) as [I2 L2].
+    + apply exec_pass_inv; auto.
+    + intros n Hn R. destruct (Nat.lt_ge_cases (rank (n_tid n)) j) as [Lt|Ge].
+      * apply exec_pass_mono. apply L; assumption.
+      * apply exec_pass_progress; [exact Hn|]. apply forallb_forall. intros x Hx.
+        pose proof (Rdep n x Hn Hx) as Rx.
+        destruct (proj1 (In_tids d x) (Din n x Hn Hx)) as [nx [Hnx T]]. rewrite <- T. apply L; [exact Hnx|].
+        rewrite T. lia.
+    + split; [exact I2|]. intros n Hn R. apply L2; [exact Hn | lia].
+Qed.
+
+(* one execute runs exactly the tasks without a stored result, each once, and afterwards
+   every task has one - in whatever order the tasks were created *)
 Lemma exec_spec : forall d st, wf_dag d ->
   (forall t, In t (exec_log d st) <-> In t (tids d) /\ st t = false) /\
   NoDup (exec_log d st) /\
   (forall t, exec_store d st t = true <-> st t = true \/ In t (tids d)).
 Proof.
-  intros d st W. destruct (exec_from_spec d [] st [] W) as [A [B C]]; [intros t []|].
+  intros d st [Din [_ [rank [Rlt Rdep]]]].
+  destruct (exec_rounds_spec d st rank Din Rdep (length d) st [] 0) as [[A [B C]] L].
+  { split; [|split]; [intros t; simpl; tauto | intros t [] | constructor]. }
+  { intros n _ R. lia. }
+  assert (Fin : forall t, In t (tids d) -> fst (exec_rounds (length d) d st []) t = true).
+  { intros t Ht. apply In_tids in Ht. destruct Ht as [n [Hn T]]. subst t. apply L; [exact Hn|]. simpl. apply Rlt. exact Hn. }
   unfold exec_log, exec_store. split; [|split].
-  - intros t. rewrite B. simpl. tauto.
-  - apply C; [constructor | intros t []].
-  - exact A.
+  - intros t. rewrite <- in_rev. split.
+    + apply B.
+    + intros [Ht S1]. destruct (proj1 (A t) (Fin t Ht)) as [H|H]; [congruence | exact H].
+  - apply NoDup_rev. exact C.
+  - intros t. split.
+    + intros H. apply A in H. destruct H as [H|H]; [left; exact H | right; apply B; exact H].
+    + intros [H|H]; [apply A; left; exact H | apply Fin; exact H].
 Qed.
 
 (* (e) after an invalidation, execute re-runs exactly the invalidated tasks (and whatever had no
